@@ -2,6 +2,8 @@
 from . import kani_run as K
 
 K.register_module("arithmetic", "src/compiler/value/arithmetic.rs", "compiler::value::arithmetic::kani_verif", "compiler")
+K.register_module("value_error", "src/compiler/value/error.rs", "compiler::value::error::kani_verif", "compiler")
+K.register_module("convert", "src/compiler/value/convert.rs", "compiler::value::convert::kani_verif", "compiler")
 K.register_module("op", "src/compiler/expression/op.rs", "compiler::expression::op::kani_verif", "compiler")
 
 COMMON_TRUSTED = [
@@ -46,4 +48,57 @@ PROPS["C13"] = dict(
     technique="contract-based deductive verification (Verus on mechanically extracted real bodies)",
 )
 
-HOOK_COMMITS = ["8978857"]
+TRY_OR = ["k_try_or_null_int", "k_try_or_null_abort", "k_try_or_null_return", "k_try_or_false_int", "k_try_or_false_abort",
+          "k_try_or_false_return", "k_try_or_true", "k_try_or_int", "k_try_or_float", "k_try_or_bytes", "k_try_or_truthy_identity"]
+INTERP_TRUSTED = [
+    "verus prelude interp.rs/nodes.rs/op.rs: abstract Value/ExpressionError/Context with ghost trace; child contract Expr::resolve = appends one Eval event with an arbitrary outcome and arbitrary store effect",
+    "structural induction over the AST (paper lemma, DESIGN section 2) and the node-kind enumeration (frame scan expr_variants)",
+    "definitions of the std combinators desugared by the extractor: Result::or_else, Result::map_err, Option::map_or, Option::map+transpose, Iterator::try_for_each, collect::<Result<_,_>>",
+    "the try_or functional contract substituted at `.try_or(|| rhs.resolve(ctx))` is discharged on the real generic function by the Kani units k_try_or_* (run by the C09 check)",
+    "callee contracts assumed in the prelude and not discharged: Target::insert = exactly one write and no error, try_message/to_message_value opaque conversions, Value::clone == identity",
+]
+INTERP_NOT_COVERED = ["stdlib function bodies that evaluate their arguments (each `Function::resolve` is a child contract here)",
+                      "Query, Variable, Literal, Noop leaf nodes (they evaluate no children)", "Block scoping of local variables"]
+
+PROPS["C06"] = dict(
+    level="proof",
+    text="`return` cannot be intercepted: Ctl contract on every interpreter node that evaluates children (real bodies extracted, Verus), the From<ValueError> conversion, the closure Runner (return = iteration value), Return::resolve raises exactly the value",
+    verus=["v_nodes", "v_op_resolve", "v_value_error_from", "v_closure_runner"],
+    kani=[],
+    scans=["expr_variants", "closure_callers"],
+    trusted=INTERP_TRUSTED + ["Runtime::resolve's final match (Return -> Ok(value)) is covered by the Kani unit of C17 (k_runtime_*) when registered"],
+    not_covered=INTERP_NOT_COVERED,
+    technique="contract-based deductive verification (Verus on mechanically extracted real bodies; Kani for the try_or callee contract)",
+)
+PROPS["C07"] = dict(
+    level="proof",
+    text="`abort` cannot be intercepted: Ctl contract on every interpreter node that evaluates children (real bodies extracted, Verus), the From<ValueError> conversion, the closure Runner, Abort::resolve raises the abort outcome",
+    verus=["v_nodes", "v_op_resolve", "v_value_error_from", "v_closure_runner"],
+    kani=[],
+    scans=["expr_variants", "closure_callers"],
+    trusted=INTERP_TRUSTED,
+    not_covered=INTERP_NOT_COVERED,
+    technique="contract-based deductive verification (Verus on mechanically extracted real bodies; Kani for the try_or callee contract)",
+)
+PROPS["C08"] = dict(
+    level="proof",
+    text="`??` and `ok, err =` follow their definitions: Op::resolve Err arm and Variant::resolve (real bodies, Verus) against the ghost trace; From<ValueError> error class",
+    verus=["v_op_resolve", "v_nodes", "v_value_error_from"],
+    kani=[],
+    scans=["expr_variants"],
+    trusted=INTERP_TRUSTED,
+    not_covered=["'the stored default belongs to ok's reported type' (DefaultValue::default_value vs Variant::type_info) - Kani unit pending", "Target::insert internals (C17/C18 units)"],
+    technique="contract-based deductive verification (Verus on mechanically extracted real bodies)",
+)
+PROPS["C09"] = dict(
+    level="proof",
+    text="short-circuit and conditional evaluation: Op::resolve Or/And arms, IfStatement, Predicate, Block, Array, Object, Not (real bodies, Verus, ghost trace says which children ran); try_or/try_and/try_boolean callee contracts (Kani on the real functions)",
+    verus=["v_op_resolve", "v_nodes"],
+    kani=TRY_OR + ["k_try_and_table", "k_try_boolean"],
+    scans=["expr_variants"],
+    trusted=INTERP_TRUSTED,
+    not_covered=["side effects inside children are abstracted: a child that is not evaluated has no effect by construction of the trace"],
+    technique="contract-based deductive verification (Verus on mechanically extracted real bodies; Kani function contracts for try_or/try_and/try_boolean)",
+)
+
+HOOK_COMMITS = ["8978857", "33091a8"]
